@@ -372,7 +372,14 @@ func runDevJob(job *dJob, tmp string, rec *dLineRec) *dOut {
 	}
 
 	apply := func(e *dEdit) {
+		if fi, err := os.Stat(file); err == nil && fi.IsDir() {
+			os.Remove(file) // a previous "unreadable" edit put a directory in the file's place
+		}
 		switch e.Style {
+		case "mkdir":
+			// unreadable: the path exists but cannot be read as a file
+			os.Remove(file)
+			os.Mkdir(file, 0o755)
 		case "delete":
 			os.Remove(file)
 		case "atomic":
@@ -402,7 +409,7 @@ func runDevJob(job *dJob, tmp string, rec *dLineRec) *dOut {
 	for i := range job.Edits {
 		e := &job.Edits[i]
 		st := dStep{Edit: i}
-		if e.Style == "delete" {
+		if e.Style == "delete" || e.Style == "mkdir" {
 			st.Cold, st.ColdErr = devCold(dir, nil)
 		} else {
 			st.Cold, st.ColdErr = devCold(dir, &e.Content)
